@@ -1770,6 +1770,11 @@ class RepeatingEngine(Engine):
                     self.kernelCompleted = True
                     self.kill()
             else:
+                # VV: Find out whether producers have finished BEFORE looking for new output: if the notification lands
+                #     after the output test of this pass, the decision to stop belongs to the next pass (which will look
+                #     for output again) - otherwise the final output can be missed
+                producers_done_when_i_started = self._producers_are_finished
+
                 # By default assume new output - only check if requested
                 isNewOutput = True
 
@@ -1787,8 +1792,7 @@ class RepeatingEngine(Engine):
                             self.log.log(19, "All of my producers are done but I am checking their outputs")
                             isNewOutput = self.job.producersHaveOutputSinceDate(self.lastLaunched)
 
-                # VV: Find out whether producers have finished, then record launch-time
-                producers_done_when_i_started = self._producers_are_finished
+                # VV: Record launch-time
                 launch_time = datetime.datetime.now()
                 self._stateDict['lastKernelLaunchDate'] = launch_time
 
